@@ -144,5 +144,7 @@ class ProtocolRecorder:
 
     def record(self, rid, dist, over, agents):
         comps = sorted(self.comps)
-        return {"id": rid, "agents": sorted(agents), "dagents": sorted(dist.agents), "comps": comps, "host": {c: dist.agent_for(c) for c in comps},
+        return {"id": rid, "agents": sorted(agents), # (the agents the deployment waits for: those of the distribution - at least the ones hosting something; a Distribution
+                # built on a defaultdict grows agents with empty lists as it is looked up, so only the hosting ones are required)
+                "dagents": sorted({dist.agent_for(c) for c in comps}), "comps": comps, "host": {c: dist.agent_for(c) for c in comps},
                 "ev": list(self.ev), "over": bool(over)}
